@@ -58,10 +58,17 @@ def check(c):
         c.floor('C31.prev-prereq', 'implicit prerequisite registered under '
                 'its hash', len(regs), 1)
         if c.idx.owner(n) is ap:
-            c.post('C31.prev-prereq', ap, n, lambda s, cv=cvar: isinstance(
-                s, ast.Assign) and norm(s.targets[0]) ==
-                f'prerequisites[{cv}.instantaneous_hash()]' and norm(
-                s.value) == cv, 'registered in prerequisites')
+            def is_reg(s, cv=cvar):
+                return isinstance(s, ast.Assign) and norm(s.targets[0]) == \
+                    f'prerequisites[{cv}.instantaneous_hash()]' and norm(
+                    s.value) == cv
+            # `if <cv> is not None: <register>` reached from the item store
+            # always registers (the store would have raised on None)
+            sure = [i.test for i in ast.walk(ap.node) if isinstance(i, ast.If)
+                    and norm(i.test) in (f'{cvar} is not None', cvar)
+                    and any(is_reg(b) for b in i.body)]
+            c.post('C31.prev-prereq', ap, n, lambda s: is_reg(s) or any(
+                s is t for t in sure), 'registered in prerequisites')
         # the point is the latest previous point over all sequences
         pdef = value_of(pvar, n)
         ok = isinstance(pdef, ast.Call) and norm(pdef.func) == 'max' and \
